@@ -112,27 +112,44 @@ _BDTUS = ['src/Mesh/MeshETurbo.cpp', 'src/Mesh/AMesh.cpp', 'src/Mesh/Delaunay.cp
           'src/Basic/Indirection.cpp', 'src/Basic/Utilities.cpp', 'src/Basic/AStringable.cpp', 'src/Basic/ASerializable.cpp', 'src/Basic/VectorHelper.cpp',
           'src/Geometry/GeometryHelper.cpp', 'src/Matrix/AMatrix.cpp', 'src/Matrix/AMatrixDense.cpp', 'src/Matrix/AMatrixSquare.cpp', 'src/Matrix/MatrixSquareGeneral.cpp',
           'src/Matrix/MatrixRectangular.cpp']
-_BD_STUBS = ['AMatrixDense::_invert (Eigen PartialPivLU inverse): exact adjugate / determinant inverse of the 3x3 system on the same Eigen storage, 1 when the determinant is 0',
+_BD_STUBS = ['AMatrixDense::_invert (Eigen PartialPivLU inverse): exact inverse of the 3x3 system on the same Eigen storage, computed as E adj(B)/det(B) with B = A E '
+             '(E subtracts column 0 from columns 1 and 2); returns 1 when the determinant is 0',
              'NF_Triplet::add(irow, icol, value): recorded (row/column maxima updated as the real one does, no Eigen storage); MatrixSparse::resetFromTriplet: counted',
              'Db::getSampleNumber: 1; Db::isActive: true; Db::getCoordinate (virtual slot of the raw Db): the symbolic point; AMesh::isCompatibleDb: 0 (compatible)',
              'messerr / message / mesArg / mestitle: empty']
-_BD_ASSUME = ['real-arithmetic reading of the code (divisions by the determinant exact); native validation / replay compares the sums up to 1e-9 (relative to 1e6 for coordinates)',
+_BD_ASSUME = ['real-arithmetic reading of the code; native validation / replay compares the exact identities up to 1e-9',
               'MeshETurbo and Db are raw storage; the mesh carries the real virtual table, a really constructed unrotated Grid, identity Indirections (no mask); ProjMatrix is an untouched raw buffer',
               'origin |x0| < 1e6, mesh 0 < dx < 1e6 (far below the undefined value 1.234e30)']
-K('C15.d2', property='C15', engine='symex', harness='C15/border.cpp', entry='k_border_exact', tus=_BDTUS, defines={'all': {'VF_DX0': '1.', 'VF_DX1': '2.'}},
-  bounds={'quick': '2-D grid of 3x3 nodes, unrotated, arbitrary real origin and arbitrary real meshes dx != dy > 0, with and without polarisation, no mask; one sample at an arbitrary real '
-                   'point of the CLOSED grid domain [x0, x0 + 2 dx] x [y0, y0 + 2 dy] (lower and upper borders, all four corners), except points within 1e-6 dx below a grid line'},
-  timeout_ms={'quick': 120000, 'thorough': 900000}, validate={'quick': 40, 'thorough': 80}, validate_doubles='int',
-  what='MeshETurbo::resetProjMatrix on its real path: Grid::coordinateToIndicesInPlace, the shift of an upper-border point down by one node (in every dimension where it applies), '
-       '_addElementToTriplet, _addWeights (MSS, Grid::indiceToRank / indiceToCoordinate, Indirection, MatrixSquareGeneral storage, AMatrix::invert, prodMatVecInPlace), NF_Triplet::force: '
-       'the row of the point is not empty: exactly 3 entries in row 0 at three distinct grid nodes, weights in [0,1] that sum to one and reproduce both coordinates of the point (affine exactness)',
-  out='the Eigen LU inverse (replaced by the exact inverse); points within eps*dx below a grid line (C15.d2.band); masked grids; rotated grids; 1-D / 3-D; several samples (C15.d); rounding',
-  assumptions=_BD_ASSUME + ['the point is not within eps = EPSILON6 (relative to the mesh) below a grid line: floor(t + eps) == floor(t) for t = (x - x0)/dx in each dimension'],
-  stubs=_BD_STUBS)
+_BD_WHAT = ('MeshETurbo::resetProjMatrix on its real path: Grid::coordinateToIndicesInPlace, the shift of an upper-border point down by one node (in every dimension where it applies), '
+            '_addElementToTriplet, _addWeights (MSS, _getPolarized, Grid::indiceToRank / indiceToCoordinate, Indirection, MatrixSquareGeneral storage, AMatrix::invert, prodMatVecInPlace), NF_Triplet::force: '
+            'the row of the point is not empty: exactly 3 entries in row 0 at three distinct grid nodes; weights in [0,1]; they sum to one and reproduce the coordinates of the point '
+            '(sum_i w_i index_d(node_i) == (p_d - x0_d)/dx_d) exactly when no weight sits on a bound of [0,1], and within 3 (resp. 6) EPSILON6 otherwise (_addWeights accepts solved weights in '
+            '[-EPSILON6, 1+EPSILON6] and clips them)')
+_BD_OUT = ('the Eigen LU inverse (replaced by an exact inverse); points within eps*dx below a grid line (C15.d2.band); masked grids; rotated grids; 1-D / 3-D; several samples and the row '
+           'numbering (C15.d); floating-point rounding')
+_BD_BAND = 'the point is not within eps = EPSILON6 (relative to the mesh) below a grid line: floor(t + eps) == floor(t) for t = (x - x0)/dx in each dimension'
+# (id, polarisation, meshes concrete?, parity hint, tiers)
+for _id, _pol, _dxc, _tiers in (('C15.d2.p0', 0, False, ('quick', 'thorough')), ('C15.d2.p1', 1, True, ('quick', 'thorough')), ('C15.d2.p1.dx', 1, False, ('thorough',))):
+    _d = {'VF_POLAR': _pol}
+    if _dxc:
+        _d.update({'VF_DX0': '1.', 'VF_DX1': '2.'})
+    elif _pol:
+        _d['VF_SPLIT_PARITY'] = 1
+    K(_id, property='C15', engine='symex', harness='C15/border.cpp', entry='k_border_exact', tus=_BDTUS, defines={'all': _d}, symex={'lazy_div': False}, tiers=_tiers,
+      bounds={'quick': '2-D grid of 3x3 nodes, unrotated, arbitrary real origin, %s, %s, no mask; one sample at an arbitrary real point of the CLOSED grid domain '
+                       '[x0, x0 + 2 dx] x [y0, y0 + 2 dy] (lower and upper borders, all four corners), except points within 1e-6 dx below a grid line' % (
+                           'meshes dx = 1, dy = 2' if _dxc else 'arbitrary real meshes dx, dy > 0', 'polarised (diamond) meshing' if _pol else 'no polarisation')},
+      timeout_ms={'quick': 120000, 'thorough': 600000}, validate={'quick': 200, 'thorough': 400}, validate_doubles='dyadic',
+      what=_BD_WHAT, out=_BD_OUT, assumptions=_BD_ASSUME + [_BD_BAND] + ['symex option lazy_div off: the only division by a symbolic value is by the determinant of the corner system, '
+                                                                    'which is a constant (dx*dy up to sign) after simplification'],
+      stubs=_BD_STUBS)
 K('C15.d2.band', property='C15', engine='symex', harness='C15/border.cpp', entry='k_border_band', tus=_BDTUS,
-  bounds={'quick': '2-D grid of 3x3 nodes, unrotated, arbitrary real origin and meshes, with and without polarisation, no mask; one sample at ANY real point of the closed grid domain '
-                   '(the round-off guard band below the grid lines included)'},
-  timeout_ms={'quick': 120000, 'thorough': 900000}, validate={'quick': 40, 'thorough': 80}, validate_doubles='int',
-  what='as C15.d2 without the guard-band assumption: the row of the point is not empty (3 entries, distinct nodes), weights in [0,1], |sum - 1| <= 3e-6',
-  out='as C15.d2; reproduction of the coordinates inside the guard band',
-  assumptions=_BD_ASSUME, stubs=_BD_STUBS)
+  defines={'all': {'VF_DX0': '1.', 'VF_DX1': '2.', 'VF_POLAR': 0, 'VF_X0': 'vf_grid_double(1024)', 'VF_LATTICE': 1}}, symex={'lazy_div': False},
+  bounds={'quick': '2-D grid of 3x3 nodes, unrotated, integer origin |x0| <= 1024, meshes dx = 1, dy = 2, no polarisation, no mask; one sample at ANY point of the closed grid domain on the '
+                   'dyadic lattice 2^-22 dx (exact in IEEE double), the round-off guard band below the grid lines included'},
+  timeout_ms={'quick': 120000, 'thorough': 600000}, validate={'quick': 100, 'thorough': 200}, validate_doubles='int',
+  what='as C15.d2.p0 without the guard-band assumption: the row of the point is not empty (3 entries, distinct nodes), weights in [0,1], sum and coordinates reproduced within 3 / 6 EPSILON6',
+  out=_BD_OUT, assumptions=_BD_ASSUME, stubs=_BD_STUBS)
+
+CLAIMS['C15'] += (' C15.d2: the real path of MeshETurbo::resetProjMatrix (start node, upper-border shift, _addWeights with an exact linear solve) gives every point of the closed domain of a '
+                  '3x3 grid a complete row of non-negative weights that sum to one and reproduce its coordinates.')
